@@ -153,7 +153,8 @@ def _call_read_neighbors(w, op, kw):
 
 def _exp_read_neighbors(w, op, res):
     if op["meta"]["weights"]:
-        return []
+        return [(f".{t}", "arr", a, {"role": "weights", "snaps": op["meta"]["snaps"], "frame": t, "result": True})
+                for t, a in enumerate(res)]
     return [(f".{t}", "arr", a, {"role": "cnlist", "snaps": op["meta"]["snaps"], "frame": t, "result": True})
             for t, a in enumerate(res)]
 
